@@ -370,7 +370,8 @@ class Labels(JSONField):
         # Oracle ocid1.<RESOURCE TYPE>.<REALM>.[REGION][.FUTURE USE].<UNIQUE ID> "ocid1.instance.oc1.phx.abuw4ljrlsfiqw6vzzxb67hyypt4pkodawglp3wqxjqofakrwvou52gb6s5a"
         'account_id': (r'[\w\-/\.]{3,100}', "Azure/GCP/AWS/Oracle account"),
         'region': (r'[\w\-\.]{3,100}', "Azure/GCP/AWS/Oracle region identifier"),
-        'usb_id': (r'[0-9a-f]{4}:[0-9a-f]{4}', "USB device id '1234:abcd'")
+        'usb_id': (r'[0-9a-f]{4}:[0-9a-f]{4}', "USB device id '1234:abcd'"),
+        'numa': (r'-1|[0-7]', "0")
     }
     LAMBDA_VALIDATORS = {
         'vlan': ((lambda v: True if 0 <= int(v) <= 4096 else False), "0-4096"),
